@@ -39,7 +39,8 @@ def gen(family, k, seed, work):
 def record(sessions, repo, solve):
     jobs = [{"kind": "roborta", "board": s["board"], "probs": s["probs"], "via": s.get("via", "write"),
              "cli": s.get("cli"), "loadonly": s.get("loadonly", False),
-             "twice": s["tid"] % 4 in (2, 3), "solve": solve, "budget": 300.0} for s in sessions]
+             "twice": s["tid"] % 4 in (2, 3), "other_first": s["tid"] % 8 == 1,
+             "solve": solve, "budget": 300.0} for s in sessions]
     results = pool.run_jobs(jobs, repo, budget=300.0)
     for s, (events, status) in zip(sessions, results):
         if status != "ok" or not events:
